@@ -1144,6 +1144,7 @@ class ArithmeticExpression(Term):
     """
 
     add_order = [Arithmetic.add, Arithmetic.sub]
+    shift_order = [Arithmetic.lshift, Arithmetic.rshift]
 
     def __init__(self, operator: Arithmetic, left: Any, right: Any, alias: Optional[str] = None) -> None:
         """
@@ -1203,10 +1204,14 @@ class ArithmeticExpression(Term):
         if left_op is None:
             # If the left expression is a single item.
             return False
+        if left_op in self.shift_order:
+            # A shift binds looser than '+', '-', '*' and '/' and its precedence relative to another shift or to other
+            # operators differs between engines: (A << B) + ..., (A << B) * ..., (A << B) >> ...
+            return True
         if curr_op in self.add_order:
             # If the current operator is '+' or '-'.
             return False
-        # The current operator is '*' or '/'. If the left operator is '+' or '-', we need to add parentheses:
+        # The current operator is '*', '/' or a shift. If the left operator is '+' or '-', we need to add parentheses:
         # e.g. (A + B) / ..., (A - B) / ...
         # Otherwise, no parentheses are necessary:
         # e.g. A * B / ..., A / B / ...
@@ -1224,6 +1229,10 @@ class ArithmeticExpression(Term):
         if right_op is None:
             # If the right expression is a single item.
             return False
+        if curr_op in self.shift_order or right_op in self.shift_order:
+            # Shifts are not associative and bind looser than the other arithmetic operators:
+            # e.g. ... << (A << B), ... << (A + B), ... + (A << B), ... * (A << B)
+            return True
         if curr_op == Arithmetic.add:
             return False
         if curr_op == Arithmetic.div:
